@@ -356,7 +356,10 @@ fn do_pt_ops(req: &Value) -> Value {
         for op in ops.as_array().unwrap() {
             match op["op"].as_str().unwrap() {
                 "push" => {
-                    let s = "x".repeat(op["len"].as_u64().unwrap() as usize);
+                    let s = match op["text"].as_str() {
+                        Some(t) => t.to_string(),
+                        None => "x".repeat(op["len"].as_u64().unwrap() as usize),
+                    };
                     let origin = if op["origin"].is_array() {
                         let o = &op["origin"];
                         Some((
